@@ -475,6 +475,71 @@ theorem checkRoutes_equiv (want got : List Opt) :
       · simp [h]
       · simp [h]
 
+/-- the model's index-wise loop of `checkRDNSS` / `checkDNSSL` as a `flatMap` over the zipped lists -/
+private theorem dnsPairs_flatMap [DecidableEq α] (fL fI : Field) (as bs : List (Dur × List α)) :
+    checkDNSPairs fL fI as bs = (List.zip as bs).flatMap (fun ab => checkDNSPairs fL fI [ab.1] [ab.2]) := by
+  induction as generalizing bs with
+  | nil => simp [checkDNSPairs]
+  | cons a as ih =>
+    cases bs with
+    | nil => simp [checkDNSPairs]
+    | cons b bs =>
+      rw [List.zip_cons_cons, List.flatMap_cons, ← ih bs]
+      simp [checkDNSPairs]
+
+private theorem dns_equiv [DecidableEq α] (fC fL fI : Field) (dnsA dnsB : List (Dur × List α)) :
+    (if (dnsA.length = 0) ∨ (dnsB.length = 0) then [] else
+     if dnsA.length ≠ dnsB.length then [({ field := fC } : Problem)] else
+     ((List.zip dnsA dnsB).flatMap (fun ab =>
+        (if ¬ (Gen.Trans.equalLifetimes ab.1.1 ab.2.1 = true) then [({ field := fL } : Problem)] else []) ++
+        if ab.1.2.length ≠ ab.2.2.length then [({ field := fI } : Problem)] else
+        (if ¬ (zipAllEq ab.1.2 ab.2.2 = true) then [({ field := fI } : Problem)] else []) ++ [])) ++ [])
+      = checkDNS fC fL fI dnsA dnsB := by
+  unfold checkDNS
+  cases dnsA with
+  | nil => simp
+  | cons a as =>
+    cases dnsB with
+    | nil => simp
+    | cons b bs =>
+      have hne : ¬ (((a :: as).length = 0) ∨ ((b :: bs).length = 0)) := by simp
+      rw [if_neg hne]
+      simp only [List.isEmpty_cons, Bool.or_self, Bool.false_eq_true, if_false]
+      by_cases hl : (a :: as).length ≠ (b :: bs).length
+      · rw [if_pos hl, if_pos hl]
+      · rw [if_neg hl, if_neg hl, List.append_nil, dnsPairs_flatMap]
+        congr 1
+        funext ab
+        simp only [checkDNSPairs, equalLifetimes_equiv, decide_eq_true_eq, List.append_nil]
+        congr 1
+        by_cases h2 : ab.1.2.length ≠ ab.2.2.length
+        · simp [h2]
+        · have h2' : ab.1.2.length = ab.2.2.length := by simpa using h2
+          simp [h2', zipAllEq_eq _ _ h2']
+
+theorem checkRDNSS_equiv (want got : List Opt) :
+    Gen.Trans.checkRDNSS want got
+      = Model.checkDNS .rdnssCount .rdnssLifetime .rdnssServers (pickRDNSS want) (pickRDNSS got) := by
+  unfold Gen.Trans.checkRDNSS
+  exact dns_equiv _ _ _ _ _
+
+theorem checkDNSSL_equiv (want got : List Opt) :
+    Gen.Trans.checkDNSSL want got
+      = Model.checkDNS .dnsslCount .dnsslLifetime .dnsslNames (pickDNSSL want) (pickDNSSL got) := by
+  unfold Gen.Trans.checkDNSSL
+  exact dns_equiv _ _ _ _ _
+
+/-- all seven checks regenerated: `verifyRAs` of the model is the concatenation, in the extracted merge
+    order, of the translated functions -/
+theorem verifyRAs_regenerated (a b : RA) :
+    Model.verifyRAs a b =
+      Gen.Trans.checkRAs a b ++ Gen.Trans.checkMTUs a.options b.options ++ Gen.Trans.checkPrefixes a.options b.options ++
+      Gen.Trans.checkRoutes a.options b.options ++ Gen.Trans.checkRDNSS a.options b.options ++
+      Gen.Trans.checkDNSSL a.options b.options ++ Gen.Trans.checkCaptivePortal a.options b.options := by
+  rw [checkRAs_equiv, checkMTUs_equiv, checkPrefixes_equiv, checkRoutes_equiv, checkRDNSS_equiv, checkDNSSL_equiv,
+    checkCaptivePortal_equiv]
+  rfl
+
 /-- non-trivial instance: one own prefix against the same prefix with a shorter preferred lifetime and
     another prefix — one report, the same on both sides -/
 example :
